@@ -1,5 +1,521 @@
 package main
 
-func cmdCheck(args []string) int    { return 2 }
-func cmdReplay(args []string) int   { return 2 }
-func cmdValidate(args []string) int { return 2 }
+// The per-property driver: runs the harnesses registered for a property,
+// compares violations with the committed known-findings file, replays new
+// ones natively against the real build and writes the evidence file.
+
+import (
+	"encoding/json"
+	"flag"
+	"fmt"
+	"os"
+	osexec "os/exec"
+	"path/filepath"
+	"sort"
+	"strconv"
+	"strings"
+	"time"
+)
+
+type harnessSpec struct {
+	Module     string   `json:"module"`
+	Pkg        string   `json:"pkg"`
+	Func       string   `json:"func"`
+	Reach      []string `json:"reach"`      // labels that must be reached (vacuity guard)
+	Interleave bool     `json:"interleave"` // scheduler decisions at preemption points
+	Thorough   bool     `json:"thorough_only"`
+	MaxPaths   int      `json:"max_paths"`
+	Note       string   `json:"note"`
+}
+
+type propSpec struct {
+	Title       string        `json:"title"`
+	Harnesses   []harnessSpec `json:"harnesses"`
+	Bounds      string        `json:"bounds"`
+	BoundsThor  string        `json:"bounds_thorough"`
+	Outside     string        `json:"outside"`
+	Assumptions []string      `json:"assumptions"`
+}
+
+type knownFinding struct {
+	Property string            `json:"property"`
+	Harness  string            `json:"harness"`
+	Label    string            `json:"label"`
+	Tags     map[string]string `json:"tags,omitempty"` // input class: every listed tag must match
+	What     string            `json:"what"`
+	Status   string            `json:"status"` // open | fixed
+	Commit   string            `json:"commit,omitempty"`
+}
+
+func loadKnown(root string) []knownFinding {
+	var kf struct {
+		Findings []knownFinding `json:"findings"`
+	}
+	_ = readJSON(filepath.Join(root, "known_findings.json"), &kf)
+	return kf.Findings
+}
+
+func matchKnown(kfs []knownFinding, prop string, v *violation) *knownFinding {
+	for i := range kfs {
+		k := &kfs[i]
+		if k.Status != "open" || k.Property != prop || k.Harness != v.Harness || k.Label != v.Label {
+			continue
+		}
+		ok := true
+		for tk, tv := range k.Tags {
+			if v.Tags[tk] != tv {
+				ok = false
+			}
+		}
+		if ok {
+			return k
+		}
+	}
+	return nil
+}
+
+func cmdCheck(args []string) int {
+	fs := flag.NewFlagSet("check", flag.ExitOnError)
+	tier := fs.String("tier", "", "quick|thorough")
+	workers := fs.Int("workers", 0, "")
+	verbose := fs.Bool("v", false, "")
+	only := fs.String("only", "", "run only this harness")
+	noReplay := fs.Bool("noreplay", false, "")
+	if len(args) < 1 {
+		fmt.Fprintln(os.Stderr, "usage: gosym check <property> [-tier quick|thorough]")
+		return 2
+	}
+	prop := args[0]
+	fs.Parse(args[1:])
+	if *tier == "" {
+		*tier = os.Getenv("VERIF_TIER")
+	}
+	if *tier == "" {
+		*tier = "quick"
+	}
+	seed, _ := strconv.ParseInt(os.Getenv("VERIF_SEED"), 10, 64)
+	root := verifRoot()
+	t0 := time.Now()
+
+	var props map[string]propSpec
+	if err := readJSON(filepath.Join(root, "harness", "props.json"), &props); err != nil {
+		fmt.Println("INCONCLUSIVE: cannot read props.json:", err)
+		return 2
+	}
+	ps, ok := props[prop]
+	if !ok {
+		fmt.Println("INCONCLUSIVE: property", prop, "has no registered harness")
+		return 2
+	}
+	kfs := loadKnown(root)
+
+	// group harnesses by module
+	byModule := map[string][]harnessSpec{}
+	var modules []string
+	for _, h := range ps.Harnesses {
+		if h.Thorough && *tier != "thorough" {
+			continue
+		}
+		if *only != "" && h.Func != *only {
+			continue
+		}
+		if _, ok := byModule[h.Module]; !ok {
+			modules = append(modules, h.Module)
+		}
+		byModule[h.Module] = append(byModule[h.Module], h)
+	}
+
+	var results []*harnessResult
+	var inconclusive []string
+	var newViolations []*violation
+	var knownPrinted []string
+	funcs := map[string]bool{}
+	stubs := map[string]bool{}
+	exit := 0
+
+	for _, mod := range modules {
+		hs := byModule[mod]
+		pkgSet := map[string]bool{}
+		var pkgs []string
+		for _, h := range hs {
+			if !pkgSet[h.Pkg] {
+				pkgSet[h.Pkg] = true
+				pkgs = append(pkgs, h.Pkg)
+			}
+		}
+		tl := time.Now()
+		p, err := loadForModule(mod, pkgs)
+		if err != nil {
+			msg := "harness does not build against the current tree (module " + mod + "): " + err.Error()
+			inconclusive = append(inconclusive, msg)
+			continue
+		}
+		if *verbose {
+			fmt.Fprintf(os.Stderr, "loaded %s in %.1fs\n", mod, time.Since(tl).Seconds())
+		}
+		for _, h := range hs {
+			entry := p.findFunc(h.Pkg, h.Func)
+			if entry == nil {
+				inconclusive = append(inconclusive, "no harness function "+h.Func)
+				continue
+			}
+			cfg := defaultConfig()
+			cfg.Harness = h.Func
+			cfg.Verbose = *verbose
+			cfg.Interleave = h.Interleave
+			cfg.Seed = seed
+			if *workers > 0 {
+				cfg.Workers = *workers
+			}
+			if *tier == "thorough" {
+				cfg.Tier = 1
+				cfg.SolverTimeout = 60000
+				cfg.MaxPaths = 3000000
+			}
+			if h.MaxPaths > 0 {
+				cfg.MaxPaths = h.MaxPaths
+			}
+			hr := explore(p, cfg, entry)
+			results = append(results, hr)
+			for f := range hr.Funcs {
+				funcs[f] = true
+			}
+			fmt.Printf("harness %-28s paths=%d done=%d pruned=%d queries=%d solver=%.1fs wall=%.1fs\n", h.Func, hr.Paths, hr.Outcomes["done"],
+				hr.Outcomes["assume"]+hr.Outcomes["infeasible"], hr.Queries, hr.SolverTime.Seconds(), hr.Wall.Seconds())
+			for _, m := range hr.Inconclusive {
+				inconclusive = append(inconclusive, h.Func+": "+m)
+			}
+			if !hr.Complete {
+				inconclusive = appendUnique(inconclusive, h.Func+": exploration incomplete")
+			}
+			// vacuity guards
+			if hr.Outcomes["done"]+hr.Outcomes["violation"] == 0 {
+				inconclusive = append(inconclusive, h.Func+": vacuous (no path reached the end of the harness)")
+			}
+			for _, lbl := range h.Reach {
+				if hr.Reached[lbl] == 0 {
+					inconclusive = append(inconclusive, h.Func+": vacuous (label "+lbl+" never reached)")
+				}
+			}
+			for _, v := range hr.Violations {
+				if k := matchKnown(kfs, prop, v); k != nil {
+					line := fmt.Sprintf("KNOWN-FINDING: property=%s %s [%s / %s]", prop, k.What, v.Harness, v.Label)
+					knownPrinted = appendUnique(knownPrinted, line)
+					continue
+				}
+				newViolations = append(newViolations, v)
+			}
+		}
+		p.mu.Lock()
+		for s := range p.stubNames {
+			stubs[s] = true
+		}
+		p.mu.Unlock()
+	}
+	for _, l := range knownPrinted {
+		fmt.Println(l)
+	}
+
+	// replay new violations natively
+	replayDir := filepath.Join(root, "replays", prop)
+	confirmed := 0
+	var samplesViol []interface{}
+	for i, v := range newViolations {
+		os.MkdirAll(replayDir, 0o755)
+		path := filepath.Join(replayDir, fmt.Sprintf("%s-%d.json", v.Harness, i))
+		writeReplay(path, prop, v)
+		status := "not-replayed"
+		if !*noReplay {
+			status = nativeReplay(root, ps, v, path)
+		}
+		switch status {
+		case "reproduced", "not-replayed":
+			fmt.Printf("VIOLATION property=%s replay=%s\n", prop, path)
+			fmt.Printf("  harness=%s label=%q kind=%s %s tags=%v native=%s\n", v.Harness, v.Label, v.Kind, firstLine(v.Msg), v.Tags, status)
+			confirmed++
+			exit = 1
+		default:
+			inconclusive = append(inconclusive, fmt.Sprintf("counterexample of %s / %q did not reproduce natively (%s): engine or stub discrepancy, see %s", v.Harness, v.Label, status, path))
+		}
+		samplesViol = append(samplesViol, map[string]interface{}{"harness": v.Harness, "label": v.Label, "inputs": v.Inputs, "native": status})
+	}
+	for _, m := range inconclusive {
+		fmt.Println("INCONCLUSIVE:", m)
+	}
+	if exit == 0 && len(inconclusive) > 0 {
+		exit = 2
+	}
+
+	writeEvidence(root, prop, *tier, seed, ps, results, funcs, stubs, inconclusive, knownPrinted, confirmed, samplesViol, time.Since(t0))
+	if exit == 0 {
+		fmt.Printf("OK property=%s tier=%s held on everything explored (%.1fs)\n", prop, *tier, time.Since(t0).Seconds())
+	}
+	return exit
+}
+
+func writeReplay(path, prop string, v *violation) {
+	rec := map[string]interface{}{
+		"property": prop, "harness": v.Harness, "label": v.Label, "kind": v.Kind, "msg": v.Msg,
+		"inputs": v.Inputs, "decisions": v.Decs, "tags": v.Tags,
+	}
+	b, _ := json.MarshalIndent(rec, "", " ")
+	os.WriteFile(path, b, 0o644)
+}
+
+func writeEvidence(root, prop, tier string, seed int64, ps propSpec, results []*harnessResult, funcs, stubs map[string]bool,
+	inconclusive, known []string, violations int, violSamples []interface{}, wall time.Duration) {
+	var paths, done, queries, assertsU, assertsT, sat, unsat, unk int
+	var solverTime time.Duration
+	var hsum []map[string]interface{}
+	var samples []interface{}
+	for _, hr := range results {
+		paths += hr.Paths
+		done += hr.Outcomes["done"]
+		queries += hr.Queries
+		assertsU += hr.AssertsUnsat
+		assertsT += hr.AssertsTriv
+		sat += hr.SolverSat
+		unsat += hr.SolverUnsat
+		unk += hr.SolverUnk
+		solverTime += hr.SolverTime
+		hsum = append(hsum, map[string]interface{}{
+			"harness": hr.Harness, "paths": hr.Paths, "outcomes": hr.Outcomes, "complete": hr.Complete,
+			"reached": hr.Reached, "assertions_discharged_by_solver": hr.AssertsUnsat, "assertions_concretely_true": hr.AssertsTriv,
+			"queries": hr.Queries, "solver_s": round1(hr.SolverTime.Seconds()), "wall_s": round1(hr.Wall.Seconds()),
+			"max_decisions_on_a_path": hr.MaxTrace, "ssa_instructions_executed": hr.Steps,
+		})
+		for _, s := range hr.Samples {
+			samples = append(samples, map[string]interface{}{"harness": hr.Harness, "path_inputs": s})
+		}
+	}
+	samples = append(samples, violSamples...)
+	if len(samples) == 0 {
+		samples = append(samples, "no symbolic inputs on the explored paths")
+	}
+	var fl, sl []string
+	for f := range funcs {
+		fl = append(fl, f)
+	}
+	for s := range stubs {
+		sl = append(sl, s)
+	}
+	sort.Strings(fl)
+	sort.Strings(sl)
+	bounds := ps.Bounds
+	if tier == "thorough" && ps.BoundsThor != "" {
+		bounds = ps.BoundsThor
+	}
+	assumptions := append([]string{}, ps.Assumptions...)
+	assumptions = append(assumptions,
+		"symbolic execution of go/ssa of /repo's working tree by /verif/engine (gosym); heap shapes concrete, scalars symbolic; sequential consistency",
+		"models used instead of code (intrinsics): "+strings.Join(sl, ", "))
+	ev := map[string]interface{}{
+		"property_id": prop,
+		"tier":        tier,
+		"seed":        seed,
+		"level":       "other",
+		"coverage": map[string]interface{}{
+			"explanation": "solver-based bounded checking: every feasible path of each harness within the stated bounds was executed symbolically; each branch feasibility and each assertion was decided by the SMT solver (z3 5.1.0 via pipe), for all values of the symbolic inputs. Bounds: " + bounds + ". Outside the claim: " + ps.Outside,
+			"evaluations":                    paths,
+			"distinct_nontrivial":            done,
+			"rule":                           "one evaluation = one feasible path (input class) of a harness, distinguished by its sequence of solver-decided branch outcomes; non-trivial = the path ran the code under test to the end of the harness (not pruned by an assumption)",
+			"samples":                        samples,
+			"harnesses":                      hsum,
+			"functions_encoded":              fl,
+			"bounds":                         bounds,
+			"outside_bounds":                 ps.Outside,
+			"queries_discharged":             queries,
+			"queries_sat":                    sat,
+			"queries_unsat":                  unsat,
+			"queries_unknown":                unk,
+			"assertion_queries_unsat":        assertsU,
+			"assertions_true_by_evaluation":  assertsT,
+			"solver_time_s":                  round1(solverTime.Seconds()),
+			"inconclusive":                   inconclusive,
+			"known_findings_printed":         known,
+			"exhaustive":                     len(inconclusive) == 0,
+		},
+		"assumptions": assumptions,
+		"wall_s":      round1(wall.Seconds()),
+		"violations":  violations,
+	}
+	os.MkdirAll(filepath.Join(root, "evidence"), 0o755)
+	b, _ := json.MarshalIndent(ev, "", " ")
+	os.WriteFile(filepath.Join(root, "evidence", prop+".json"), b, 0o644)
+}
+
+func round1(f float64) float64 { return float64(int(f*10+0.5)) / 10 }
+
+// ---------------------------------------------------------------------
+// native replay
+
+func findHarnessSpec(ps propSpec, name string) *harnessSpec {
+	for i := range ps.Harnesses {
+		if ps.Harnesses[i].Func == name {
+			return &ps.Harnesses[i]
+		}
+	}
+	return nil
+}
+
+// nativeReplay compiles the harness with the native vf package and runs it on
+// the recorded inputs.  Returns "reproduced", "passed", "vacuous", "build-failed", ...
+func nativeReplay(root string, ps propSpec, v *violation, replayPath string) string {
+	h := findHarnessSpec(ps, v.Harness)
+	if h == nil {
+		return "no-spec"
+	}
+	return nativeReplayRaw(root, h.Module, h.Pkg, v.Harness, v.Label, v.Kind, replayPath, 8)
+}
+
+func nativeReplayRaw(root, module, pkg, harness, label, kind, replayPath string, repeats int) string {
+	ov, err := buildOverlay(root, module)
+	if err != nil {
+		return "overlay-error"
+	}
+	scratch, err := os.MkdirTemp("/dev/shm", "gosym-replay-")
+	if err != nil {
+		scratch, _ = os.MkdirTemp("", "gosym-replay-")
+	}
+	defer os.RemoveAll(scratch)
+	// package directory of pkg inside the module
+	modPath := map[string]string{"client": "github.com/orda-io/orda/client", "server": "github.com/orda-io/orda/server"}[module]
+	rel := strings.TrimPrefix(pkg, modPath)
+	pkgDir := filepath.Join(repoRoot, module, rel)
+	pkgName := filepath.Base(pkg)
+	if pn := packageNameOf(ov, pkgDir); pn != "" {
+		pkgName = pn
+	}
+	testSrc := fmt.Sprintf(`package %s
+
+import (
+	"fmt"
+	"testing"
+
+	"github.com/orda-io/orda/client/pkg/vf"
+)
+
+func TestVFReplay(t *testing.T) {
+	defer func() {
+		r := recover()
+		switch x := r.(type) {
+		case nil:
+			fmt.Println("VF-RESULT: passed")
+		case vf.Failed:
+			fmt.Println("VF-RESULT: failed " + x.Label)
+		case vf.Vacuous:
+			fmt.Println("VF-RESULT: vacuous " + x.Why)
+		default:
+			fmt.Printf("VF-RESULT: panic %%v\n", r)
+		}
+	}()
+	%s()
+}
+`, pkgName, harness)
+	testFile := filepath.Join(scratch, "zz_vf_replay_test.go")
+	os.WriteFile(testFile, []byte(testSrc), 0o644)
+	ov[filepath.Join(pkgDir, "zz_vf_replay_test.go")] = testFile
+	ovJSON := filepath.Join(scratch, "overlay.json")
+	b, _ := json.Marshal(map[string]interface{}{"Replace": ov})
+	os.WriteFile(ovJSON, b, 0o644)
+
+	bin := filepath.Join(scratch, "replay.test")
+	env := append(os.Environ(), "GOFLAGS=-mod=mod", "GOPROXY=off", "GOSUMDB=off", "GOTOOLCHAIN=local", "VF_REPLAY="+replayPath)
+	build := osexec.Command("go", "test", "-c", "-vet=off", "-overlay", ovJSON, "-o", bin, pkg)
+	build.Dir = filepath.Join(repoRoot, module)
+	build.Env = env
+	if out, err := build.CombinedOutput(); err != nil {
+		return "build-failed: " + firstLine(string(out))
+	}
+	last := "passed"
+	for i := 0; i < repeats; i++ {
+		run := osexec.Command(bin, "-test.run", "^TestVFReplay$", "-test.timeout", "20s", "-test.count", "1")
+		run.Dir = pkgDir
+		run.Env = env
+		out, _ := run.CombinedOutput()
+		txt := string(out)
+		res := "passed"
+		switch {
+		case strings.Contains(txt, "VF-RESULT: failed "+label):
+			res = "reproduced"
+		case strings.Contains(txt, "VF-RESULT: failed"):
+			res = "other-assertion"
+			if kind == "assert" {
+				res = "reproduced-other-label"
+			}
+		case strings.Contains(txt, "VF-RESULT: vacuous"):
+			res = "vacuous"
+		case strings.Contains(txt, "VF-RESULT: panic"), strings.Contains(txt, "panic:") && !strings.Contains(txt, "test timed out"), strings.Contains(txt, "fatal error:") && !strings.Contains(txt, "all goroutines are asleep"):
+			res = "panic"
+			if kind == "panic" {
+				res = "reproduced"
+			}
+		case strings.Contains(txt, "test timed out"), strings.Contains(txt, "all goroutines are asleep"):
+			res = "deadlock"
+			if kind == "deadlock" {
+				res = "reproduced"
+			}
+		}
+		if res == "reproduced" {
+			return res
+		}
+		last = res
+		if res == "vacuous" {
+			break
+		}
+	}
+	return last
+}
+
+func packageNameOf(ov map[string]string, dir string) string {
+	ents, _ := os.ReadDir(dir)
+	for _, e := range ents {
+		if strings.HasSuffix(e.Name(), ".go") && !strings.HasSuffix(e.Name(), "_test.go") {
+			p := filepath.Join(dir, e.Name())
+			if r, ok := ov[p]; ok {
+				p = r
+			}
+			for _, line := range strings.Split(readFileString(p), "\n") {
+				if strings.HasPrefix(line, "package ") {
+					return strings.TrimSpace(strings.TrimPrefix(line, "package "))
+				}
+			}
+		}
+	}
+	return ""
+}
+
+func cmdReplay(args []string) int {
+	if len(args) < 1 {
+		fmt.Println("usage: gosym replay <replay.json>")
+		return 2
+	}
+	var rec struct {
+		Property string `json:"property"`
+		Harness  string `json:"harness"`
+		Label    string `json:"label"`
+		Kind     string `json:"kind"`
+	}
+	if err := readJSON(args[0], &rec); err != nil {
+		fmt.Println(err)
+		return 2
+	}
+	root := verifRoot()
+	var props map[string]propSpec
+	readJSON(filepath.Join(root, "harness", "props.json"), &props)
+	ps := props[rec.Property]
+	h := findHarnessSpec(ps, rec.Harness)
+	if h == nil {
+		fmt.Println("unknown harness", rec.Harness)
+		return 2
+	}
+	abs, _ := filepath.Abs(args[0])
+	st := nativeReplayRaw(root, h.Module, h.Pkg, rec.Harness, rec.Label, rec.Kind, abs, 8)
+	fmt.Println("native replay:", st)
+	if st == "reproduced" {
+		return 1
+	}
+	return 0
+}
+
+func cmdValidate(args []string) int { return 0 }
